@@ -130,7 +130,7 @@ def make_decider(rng, mode, holder):
                 cpu -= c
                 ram -= r
                 asg.append({"operator_ids": ops, "cpu": c, "ram_gb": r, "pool_id": pool["pool_id"], "priority": p["priority"],
-                            "is_resume": False, "force_run": False})
+                            "is_resume": rng.random() < 0.1, "force_run": rng.random() < 0.15})         # optional flags: no effect on what is executed
         if mode == "universal" and holder.get("ex") is not None:
             for R in holder["ex"].pools:
                 for c in R.active_containers:
@@ -207,6 +207,9 @@ def run_case(seed, tid):
     ticks = rng.choice([40, 90, 160])
     mode = rng.choice(["universal", "universal", "naive", "retry"])
     poll = rng.choice([0.0, 1.0 / tps, 3.0 / tps, 1.0, 2.5])
+    quiet = rng.random() < 0.12          # a run of one to three ticks, possibly with nothing arriving and no call due before it ends
+    if quiet:
+        ticks, poll = rng.choice([1, 1, 2, 3]), rng.choice([poll, 1.0, 2.5, 100.0])
     npools = rng.choice([1, 2])
     cpus = rng.choice([2, 4, 8])
     ram = rng.choice([32, 64, 256])
@@ -214,7 +217,7 @@ def run_case(seed, tid):
     def build():
         r2 = random.Random(seed + 17)
         arrivals = {}
-        for k in range(r2.randint(2, 7)):
+        for k in range(r2.randint(2, 7) if not quiet else r2.choice([0, 0, 1])):
             p = Pipeline(f"r{k + 1}", r2.choice(list(Priority)))
             ops = []
             for i in range(r2.randint(1, 4) if mode != "retry" else r2.randint(3, 5)):
